@@ -171,6 +171,14 @@ def extract (s : Str) : Denom :=
     let r := extractGo (decide (segs.length > 2)) segs
     ⟨r.1, joinWith '/' r.2⟩
 
+/-- `Denom.ValidateBaseNotHopLike` (as a Boolean: `true` = accepted): the second '/'-segment of the base
+    is not a channel or client identifier in ibc-go's format.  Such a base would be split into a hop
+    and a shorter base by `ExtractDenomFromPath` once the path carries a hop in front. -/
+def hopFreeBase (base : Str) : Bool :=
+  match splitOnChar '/' base with
+  | _ :: c :: _ => !isHopId c
+  | _ => true
+
 /-! ### SDK / ICS-20 coin-denomination validation (msgs.go `validateIBCCoin`, denom.go `validateIBCDenom`) -/
 
 /-- `sdk.ValidateDenom`: `[a-zA-Z][a-zA-Z0-9/:._-]{2,127}` (whole string) -/
@@ -226,8 +234,15 @@ def rlSendDenom (hashHex : Str → Str) (denom : Str) : Str :=
   if ibcSlash.isPrefixOf denom then denom
   else (extract denom).ibcDenom hashHex
 
-/-- `ParseDenomFromRecvPacket` -/
+/-- `ParseDenomFromRecvPacket`: parse the path and test the first hop of the parsed trace, as
+    `OnRecvPacket` does (since fix 143f4d3; before, a raw string-prefix test) -/
 def rlRecvDenom (hashHex : Str → Str) (srcPort srcChan dstPort dstChan denom : Str) : Str :=
+  let d := extract denom
+  if d.hasPrefix srcPort srcChan then Denom.ibcDenom hashHex ⟨d.trace.tail, d.base⟩
+  else Denom.ibcDenom hashHex ⟨⟨dstPort, dstChan⟩ :: d.trace, d.base⟩
+
+/-- `ParseDenomFromRecvPacket` as it was before fix 143f4d3 (kept for the regression theorems of C42) -/
+def rlRecvDenomPreFix (hashHex : Str → Str) (srcPort srcChan dstPort dstChan denom : Str) : Str :=
   let sourcePrefix := (Hop.mk srcPort srcChan).str ++ ['/']
   if sourcePrefix.isPrefixOf denom then
     (extract (denom.drop sourcePrefix.length)).ibcDenom hashHex
